@@ -13,36 +13,41 @@ types are non-empty, free of `,` `;` space and tab, and are not `*/*`.  `Mime.ro
 the router's own Accept test (`detectRoute` + `matchesAccept`): a handler only ever writes an
 entity for a request that passed it.
 
-Two classes of requests on which the CURRENT code violates the property (the hypotheses the proofs
+ONE class of requests on which the CURRENT code violates the property (the hypothesis the proofs
 force; witnesses below, replayed on the real code by the check on every run):
 
-  F07   `Spec.F07 a d`       : no Accept header ∧ DefaultResponseMimeType ∈ {JSON, XML, ZIP}
-                               — the default overrides Produces (response.go:102-114).
   F07b  `Spec.F07b a P reg`  : non-empty header that the router admits although none of its
                                well-formed ranges is satisfiable; by `C05_F07b_class` that means: an
                                element the router admitted on carries an unparsable q (the router
                                ignores q, `sortedMimes` drops the range).  `accessorAt(<raw header>)`
                                then answers with ANY registered key that is a substring of the header
                                (map iteration order decides among several; possibly not produced), and
-                               failing that with the default type.
-  Both are the same stretch of code: what `EntityWriter` does after its walk over the ranges found
-  nothing (response.go:102-126).
+                               failing that with the default type (response.go:107-131) — possibly not
+                               produced either, or without a writer (406).
 
-The full statements, false today (witnesses `C05_F07_witness`, `C05_F07b_witness`):
+  (F07 — no Accept header ∧ DefaultResponseMimeType ∈ {JSON, XML, ZIP}: the default overrode
+  Produces — was repaired by d89a7d4: `EntityWriter` ranks a missing header as `*/*`, as the router
+  does.  The hypothesis `Spec.F07 a d = false` is gone from every theorem; `C05_absent_accept` is the
+  general statement of the repaired behaviour, `C05_F07_fixed` the former witnesses, now answered as
+  the property demands.  `Spec.F07` survives as a coverage class of the check only.)
+
+The full statements, false today only because of F07b (witnesses `C05_F07b_witness…`):
   theorem C05_member   : wfMime P reg → routerAdmits a P → ∀ m ∈ entityWriter a P reg d, m ∈ P ∧ m ∈ reg
   theorem C05_best     : wfMime P reg → routerAdmits a P → ∃ b, best a P reg = some b ∧ entityWriter a P reg d = [b]
-  theorem C05_function : wfMime P reg → defaultOK reg d → routerAdmits a P →
+  theorem C05_function : wfMime P reg → routerAdmits a P →
                            ∀ m ∈ entityWriter a P reg d, ∀ m' ∈ entityWriter a P reg d, m = m'
 Proved here:
-  C05_member_partial, C05_best_partial   under ¬F07 ∧ ¬F07b
-  C05_function_partial                   under ¬F07b (holds inside F07)
-  C05_no406                              FULL, for every header (needs only: the default type, when set,
-                                         has a writer — false for MIME_ZIP on a stock registry, see
-                                         `C05_F07_witness_zip`); C05_no406_partial without that, under ¬F07 ∧ ¬F07b
-  C05_ows                                FULL, every pair of headers: `sortedMimes` factors through `dropOWS`
-  C05_ows_writer                         same writer whenever the walk decides
-  C05_holds_partial                      the above as `Spec.c05Holds` on every answer sequence the model allows
-  C05_F07b_class                         what F07b consists of
+  C05_member_partial, C05_best_partial,
+  C05_function_partial, C05_no406_partial  under ¬F07b, nothing else (no assumption on the default type)
+  C05_absent_accept                        FULL: no Accept header ⇒ the first produced type, whatever the default
+  C05_no406                                FULL, for every header, inside F07b as well (needs only: the default
+                                           type, when set, has a writer — false for MIME_ZIP on a stock
+                                           registry, see `C05_F07b_witness_zip`)
+  C05_ows                                  FULL, every pair of headers: `sortedMimes` factors through `dropOWS`
+  C05_ows_writer                           same writer whenever the walk decides (both headers present, or both absent)
+  C05_ows_writer_admitted                  … in particular for two spellings the router admits
+  C05_holds_partial                        the above as `Spec.c05Holds` on every answer sequence the model allows
+  C05_F07b_class                           what F07b consists of
 Nothing is left unproved; no statement of this file is assumed.
 -/
 import Restful.Lemmas.Mime
@@ -52,52 +57,50 @@ namespace Restful
 namespace Props
 open Str Mime
 
-/-- what `EntityWriter` returns outside both classes: exactly the representation the property demands -/
+/-- what `EntityWriter` returns outside F07b: exactly the representation the property demands -/
 theorem C05_best_partial (a : Str) (P reg : List Str) (d : Str)
     (hwf : Spec.wfMime P reg = true) (hadm : routerAdmits a P = true)
-    (h07 : Spec.F07 a d = false) (h07b : Spec.F07b a P reg = false) :
+    (h07b : Spec.F07b a P reg = false) :
     ∃ b, Spec.best a P reg = some b ∧ entityWriter a P reg d = [b] := by
   have h := wf_of hwf
-  by_cases ha : a = []
-  · subst ha
-    have hd : defaultSet d = false := by simpa [Spec.F07] using h07
-    refine ⟨P.headD [], best_nil h, ?_⟩
-    rw [entityWriter_fallback d (walk_nil_accept h) (accessorAt_nil_accept h), default_unset hd,
-      firstProduced_eq _ h.sub]
-    cases P with
-    | nil => exact absurd rfl h.ne
-    | cons p ps => rfl
-  · obtain ⟨b, hb⟩ := best_isSome_of ha hadm h07b
-    exact ⟨b, hb, (entityWriter_of_best h ha hb).1⟩
+  obtain ⟨b, hb⟩ := best_isSome_of h hadm h07b
+  exact ⟨b, hb, (entityWriter_of_best h hb).1⟩
 
 /-- the Content-Type is a produced type that has a registered writer -/
 theorem C05_member_partial (a : Str) (P reg : List Str) (d : Str)
     (hwf : Spec.wfMime P reg = true) (hadm : routerAdmits a P = true)
-    (h07 : Spec.F07 a d = false) (h07b : Spec.F07b a P reg = false) :
+    (h07b : Spec.F07b a P reg = false) :
     ∀ m ∈ entityWriter a P reg d, m ∈ P ∧ m ∈ reg := by
   have h := wf_of hwf
-  obtain ⟨b, hb, hw⟩ := C05_best_partial a P reg d hwf hadm h07 h07b
+  obtain ⟨b, hb⟩ := best_isSome_of h hadm h07b
+  obtain ⟨hw, hmem⟩ := entityWriter_of_best (d := d) h hb
   intro m hm
   rw [hw, List.mem_singleton] at hm
   subst hm
-  have hmem : m ∈ P := by
-    by_cases ha : a = []
-    · subst ha
-      rw [best_nil h, Option.some.injEq] at hb
-      subst hb
-      cases P with
-      | nil => exact absurd rfl h.ne
-      | cons p ps => simp
-    · exact (entityWriter_of_best (d := d) h ha hb).2
   exact ⟨hmem, h.sub m hmem⟩
 
+/-- no Accept header (which the router admits on every route): the writer is the first produced
+    type, whatever `DefaultResponseContentType` says, and that is what the property demands
+    (`*/*`).  This is the repaired F07, for every route of the quantifier. -/
+theorem C05_absent_accept (P reg : List Str) (d : Str) (hwf : Spec.wfMime P reg = true) :
+    routerAdmits [] P = true ∧ Spec.best [] P reg = P.head? ∧ entityWriter [] P reg d = P.head?.toList := by
+  have h := wf_of hwf
+  have hb := best_nil h
+  have hw := entityWriter_nil h d
+  cases P with
+  | nil => exact absurd rfl h.ne
+  | cons p ps =>
+    have h1 : split ',' starStar = [starStar] := by decide
+    have h2 : mediaOf starStar = starStar := by decide
+    exact ⟨by simp [routerAdmits, h1, acceptLoop, h2], hb, hw⟩
+
 /-- the entity writer never answers 406 on a route of the quantifier (a fortiori not for a request
-    the router admitted on Accept grounds) — holds inside F07 and F07b as well -/
+    the router admitted on Accept grounds) — holds inside F07b as well -/
 theorem C05_no406 (a : Str) (P reg : List Str) (d : Str)
     (hwf : Spec.wfMime P reg = true) (hd : Spec.defaultOK reg d = true) :
     entityWriter a P reg d ≠ [] := by
   have h := wf_of hwf
-  by_cases hw : walk reg P (sortedMimes a) = []
+  by_cases hw : walk reg P (sortedMimes (if a.isEmpty then starStar else a)) = []
   · by_cases hk : accessorAt reg a = []
     · rw [entityWriter_fallback d hw hk]
       by_cases hs : defaultSet d = true
@@ -122,25 +125,12 @@ theorem C05_no406_admitted (a : Str) (P reg : List Str) (d : Str)
     entityWriter a P reg d ≠ [] := C05_no406 a P reg d hwf hd
 
 /-- the same request always gets the same representation: whatever the iteration order of the
-    registry map, there is one possible writer (holds inside F07 as well) -/
+    registry map, there is one possible writer -/
 theorem C05_function_partial (a : Str) (P reg : List Str) (d : Str)
-    (hwf : Spec.wfMime P reg = true) (hd : Spec.defaultOK reg d = true) (hadm : routerAdmits a P = true)
+    (hwf : Spec.wfMime P reg = true) (hadm : routerAdmits a P = true)
     (h07b : Spec.F07b a P reg = false) :
     ∀ m ∈ entityWriter a P reg d, ∀ m' ∈ entityWriter a P reg d, m = m' := by
-  have h := wf_of hwf
-  have hone : ∃ x, entityWriter a P reg d = [x] := by
-    by_cases ha : a = []
-    · subst ha
-      rw [entityWriter_fallback d (walk_nil_accept h) (accessorAt_nil_accept h)]
-      by_cases hs : defaultSet d = true
-      · exact ⟨d, default_singleton hd hs⟩
-      · rw [default_unset (by simpa using hs), firstProduced_eq _ h.sub]
-        cases P with
-        | nil => exact absurd rfl h.ne
-        | cons p ps => exact ⟨p, rfl⟩
-    · obtain ⟨b, hb⟩ := best_isSome_of ha hadm h07b
-      exact ⟨b, (entityWriter_of_best h ha hb).1⟩
-  obtain ⟨x, hx⟩ := hone
+  obtain ⟨x, _, hx⟩ := C05_best_partial a P reg d hwf hadm h07b
   intro m hm m' hm'
   rw [hx, List.mem_singleton] at hm hm'
   rw [hm, hm']
@@ -151,21 +141,38 @@ theorem C05_ows (a a' : Str) (h : dropOWS a = dropOWS a') : sortedMimes a = sort
   rw [← sortedMimes_dropOWS a, ← sortedMimes_dropOWS a', h]
 
 /-- … hence the same writer, whenever the walk over the ranges decides (i.e. outside the fallback
-    `accessorAt(<raw header>)`, which F07/F07b are about) -/
+    `accessorAt(<raw header>)`, which F07b is about).  A missing header is ranked as `*/*`, a header of
+    blanks is not: the two headers are both present or both absent. -/
 theorem C05_ows_writer (a a' : Str) (P reg : List Str) (d : Str) (h : dropOWS a = dropOWS a')
-    (hdec : walk reg P (sortedMimes a) ≠ []) : entityWriter a P reg d = entityWriter a' P reg d := by
-  have hdec' : walk reg P (sortedMimes a') ≠ [] := by rw [← C05_ows a a' h]; exact hdec
-  rw [entityWriter_of_walk rfl hdec, entityWriter_of_walk rfl hdec', C05_ows a a' h]
+    (hE : a.isEmpty = a'.isEmpty)
+    (hdec : walk reg P (sortedMimes (if a.isEmpty then starStar else a)) ≠ []) :
+    entityWriter a P reg d = entityWriter a' P reg d := by
+  have he : sortedMimes (if a.isEmpty then starStar else a) = sortedMimes (if a'.isEmpty then starStar else a') := by
+    rw [← hE]
+    by_cases hn : a.isEmpty = true
+    · simp [hn]
+    · simpa [hn] using C05_ows a a' h
+  have hdec' : walk reg P (sortedMimes (if a'.isEmpty then starStar else a')) ≠ [] := by rw [← he]; exact hdec
+  rw [entityWriter_of_walk rfl hdec, entityWriter_of_walk rfl hdec', he]
+
+/-- two spellings of one header that the router both admits get the same writer whenever the walk
+    decides: an admitted header is never a string of blanks, so both are present or both absent -/
+theorem C05_ows_writer_admitted (a a' : Str) (P reg : List Str) (d : Str)
+    (hwf : Spec.wfMime P reg = true) (hadm : routerAdmits a P = true) (hadm' : routerAdmits a' P = true)
+    (h : dropOWS a = dropOWS a')
+    (hdec : walk reg P (sortedMimes (if a.isEmpty then starStar else a)) ≠ []) :
+    entityWriter a P reg d = entityWriter a' P reg d :=
+  C05_ows_writer a a' P reg d h (isEmpty_eq_of_admitted (wf_of hwf) hadm hadm' h) hdec
 
 /-- the theorems above in the form the driver evaluates: whatever sequence of answers the model
     allows for repeated dispatches satisfies `Spec.c05Holds` -/
 theorem C05_holds_partial (a : Str) (P reg : List Str) (d : Str)
     (hwf : Spec.wfMime P reg = true) (hadm : routerAdmits a P = true)
-    (h07 : Spec.F07 a d = false) (h07b : Spec.F07b a P reg = false)
+    (h07b : Spec.F07b a P reg = false)
     (obs : List Spec.MimeObs) (hobs : ∀ o ∈ obs, ∃ m ∈ entityWriter a P reg d, o = .ct m) :
     Spec.c05Holds a P reg obs = true := by
-  obtain ⟨b, hb, hw⟩ := C05_best_partial a P reg d hwf hadm h07 h07b
-  have hmem := C05_member_partial a P reg d hwf hadm h07 h07b b (by rw [hw]; simp)
+  obtain ⟨b, hb, hw⟩ := C05_best_partial a P reg d hwf hadm h07b
+  have hmem := C05_member_partial a P reg d hwf hadm h07b b (by rw [hw]; simp)
   have hall : ∀ o ∈ obs, o = .ct b := by
     intro o ho
     obtain ⟨m, hm, rfl⟩ := hobs o ho
@@ -184,36 +191,35 @@ theorem C05_holds_partial (a : Str) (P reg : List Str) (d : Str)
       intro x hx
       rw [hall x (List.mem_cons_of_mem _ hx), hall o List.mem_cons_self]
 
-/-- 406 outside both classes, without assuming that the default type has a writer -/
+/-- no 406 outside F07b, without assuming that the default type has a writer -/
 theorem C05_no406_partial (a : Str) (P reg : List Str) (d : Str)
     (hwf : Spec.wfMime P reg = true) (hadm : routerAdmits a P = true)
-    (h07 : Spec.F07 a d = false) (h07b : Spec.F07b a P reg = false) :
+    (h07b : Spec.F07b a P reg = false) :
     entityWriter a P reg d ≠ [] := by
-  obtain ⟨b, _, hw⟩ := C05_best_partial a P reg d hwf hadm h07 h07b
+  obtain ⟨b, _, hw⟩ := C05_best_partial a P reg d hwf hadm h07b
   rw [hw]; simp
 
-/-! ### the two classes are real: witnesses on the model
+/-! ### F07 is repaired; F07b is real: witnesses on the model
 
 The registry of the witnesses is the one the harness sets up (built-in JSON and XML plus four custom
 registrations), so the check replays exactly these cases on the real code. -/
 
-/-- F07: no Accept header, default JSON, route produces only XML: the writer is JSON — not produced,
-    not the best (`*/*` stands for the first produced type), although every other hypothesis holds -/
-theorem C05_F07_witness :
-    let P := [mimeXML]; let reg := harnessReg
-    Spec.wfMime P reg = true ∧ Spec.defaultOK reg mimeJSON = true ∧ routerAdmits [] P = true ∧
-      Spec.F07 [] mimeJSON = true ∧ Spec.F07b [] P reg = false ∧
-      entityWriter [] P reg mimeJSON = [mimeJSON] ∧ mimeJSON ∉ P ∧ Spec.best [] P reg = some mimeXML ∧
-      Spec.c05Holds [] P reg [.ct mimeJSON, .ct mimeJSON, .ct mimeJSON] = false := by
-  decide
-
-/-- inside F07 with `DefaultResponseContentType(MIME_ZIP)` and no zip writer registered the entity
-    writer even answers 406 to a request the router admitted (why `C05_no406` assumes `defaultOK`) -/
-theorem C05_F07_witness_zip :
-    let P := [mimeJSON]; let reg := harnessReg
-    Spec.wfMime P reg = true ∧ Spec.defaultOK reg mimeZIP = false ∧ routerAdmits [] P = true ∧
-      Spec.F07 [] mimeZIP = true ∧ entityWriter [] P reg mimeZIP = [] ∧
-      Spec.c05Holds [] P reg [.notAcceptable] = false := by
+/-- the former witnesses of F07, now answered as the property demands.  No Accept header, default
+    JSON, route produces only XML: the writer is XML (was JSON — not produced); default ZIP without a
+    zip writer, route produces only JSON: the writer is JSON (was 406).  Both requests are outside
+    F07b, i.e. they meet every hypothesis of the partial theorems. -/
+theorem C05_F07_fixed :
+    let reg := harnessReg
+    (Spec.wfMime [mimeXML] reg = true ∧ routerAdmits [] [mimeXML] = true ∧ Spec.F07b [] [mimeXML] reg = false ∧
+      Spec.best [] [mimeXML] reg = some mimeXML ∧
+      entityWriter [] [mimeXML] reg mimeJSON = [mimeXML] ∧
+      Spec.c05Holds [] [mimeXML] reg [.ct mimeXML, .ct mimeXML, .ct mimeXML] = true ∧
+      Spec.c05Holds [] [mimeXML] reg [.ct mimeJSON, .ct mimeJSON, .ct mimeJSON] = false) ∧
+    (Spec.wfMime [mimeJSON] reg = true ∧ Spec.defaultOK reg mimeZIP = false ∧ routerAdmits [] [mimeJSON] = true ∧
+      Spec.F07b [] [mimeJSON] reg = false ∧
+      entityWriter [] [mimeJSON] reg mimeZIP = [mimeJSON] ∧
+      Spec.c05Holds [] [mimeJSON] reg [.ct mimeJSON] = true ∧
+      Spec.c05Holds [] [mimeJSON] reg [.notAcceptable] = false) := by
   decide
 
 /-- F07b: `Accept: application/json;q=x,application/xml` on a JSON-only route: the router admits it
@@ -224,17 +230,29 @@ theorem C05_F07b_witness :
     let a := "application/json;q=x,application/xml".toList
     let P := [mimeJSON]; let reg := harnessReg
     Spec.wfMime P reg = true ∧ Spec.defaultOK reg [] = true ∧ routerAdmits a P = true ∧
-      Spec.F07 a [] = false ∧ Spec.F07b a P reg = true ∧
+      Spec.F07b a P reg = true ∧
       entityWriter a P reg [] = [mimeJSON, mimeXML, "application/x".toList] ∧ mimeXML ∉ P ∧
       Spec.c05Holds a P reg [.ct mimeXML] = false ∧ Spec.c05Holds a P reg [.ct mimeJSON, .ct mimeXML] = false := by
   decide
 
-/-- inside F07b the default type can override Produces as well (`*/*;q=x`, default JSON, XML-only route) -/
+/-- inside F07b the default type still overrides Produces (`*/*;q=x`, default JSON, XML-only route):
+    what the repair of F07 did for a missing header is not done for a wildcard with an unparsable q -/
 theorem C05_F07b_witness_default :
     let a := "*/*;q=x".toList
     let P := [mimeXML]; let reg := harnessReg
-    Spec.wfMime P reg = true ∧ routerAdmits a P = true ∧ Spec.F07 a mimeJSON = false ∧ Spec.F07b a P reg = true ∧
-      entityWriter a P reg mimeJSON = [mimeJSON] ∧ mimeJSON ∉ P := by
+    Spec.wfMime P reg = true ∧ Spec.defaultOK reg mimeJSON = true ∧ routerAdmits a P = true ∧ Spec.F07b a P reg = true ∧
+      entityWriter a P reg mimeJSON = [mimeJSON] ∧ mimeJSON ∉ P ∧
+      Spec.c05Holds a P reg [.ct mimeJSON, .ct mimeJSON, .ct mimeJSON] = false := by
+  decide
+
+/-- inside F07b with `DefaultResponseContentType(MIME_ZIP)` and no zip writer registered the entity
+    writer even answers 406 to a request the router admitted (why `C05_no406` assumes `defaultOK`) -/
+theorem C05_F07b_witness_zip :
+    let a := "*/*;q=x".toList
+    let P := [mimeJSON]; let reg := harnessReg
+    Spec.wfMime P reg = true ∧ Spec.defaultOK reg mimeZIP = false ∧ routerAdmits a P = true ∧
+      Spec.F07b a P reg = true ∧ entityWriter a P reg mimeZIP = [] ∧
+      Spec.c05Holds a P reg [.notAcceptable] = false := by
   decide
 
 /-- what the class F07b consists of: the header has an element on which the router admits the request
@@ -290,22 +308,36 @@ example :
     let a := "application/json ; level=1 ; q=0.5,\t*/* ;q= 0.8 , application/xml;q = 0.9".toList
     let P := [mimeJSON, mimeXML]; let reg := [mimeJSON, mimeXML, "text/csv".toList]
     Spec.wfMime P reg = true ∧ Spec.defaultOK reg mimeJSON = true ∧ routerAdmits a P = true ∧
-      Spec.F07 a mimeJSON = false ∧ Spec.F07b a P reg = false ∧
+      Spec.F07b a P reg = false ∧
       Spec.best a P reg = some mimeXML ∧ entityWriter a P reg mimeJSON = [mimeXML] := by
   decide
 
-/-- no Accept header and no default: the first produced type (hypotheses of all partial theorems) -/
+/-- no Accept header and a default type that is produced, but not first: the first produced type
+    (hypotheses of all partial theorems and of `C05_absent_accept`) -/
 example :
     let P := [mimeXML, mimeJSON]; let reg := [mimeJSON, mimeXML]
-    Spec.wfMime P reg = true ∧ routerAdmits [] P = true ∧ Spec.F07 [] [] = false ∧ Spec.F07b [] P reg = false ∧
-      entityWriter [] P reg [] = [mimeXML] := by
+    Spec.wfMime P reg = true ∧ routerAdmits [] P = true ∧ Spec.F07b [] P reg = false ∧
+      entityWriter [] P reg [] = [mimeXML] ∧ entityWriter [] P reg mimeJSON = [mimeXML] := by
   decide
 
-/-- C05_ows is not vacuous: two different spellings of one header with one normal form -/
+/-- C05_ows / C05_ows_writer(_admitted) are not vacuous: two different spellings of one header with one
+    normal form, both present, both admitted, the walk decides -/
 example :
     let a := "application/xml;q=0.2,application/json".toList
     let a' := " application/xml ;\tq = 0.2 ,  application/json\t".toList
-    a ≠ a' ∧ dropOWS a = dropOWS a' ∧ walk [mimeJSON, mimeXML] [mimeXML, mimeJSON] (sortedMimes a) ≠ [] := by
+    let P := [mimeXML, mimeJSON]; let reg := [mimeJSON, mimeXML]
+    a ≠ a' ∧ dropOWS a = dropOWS a' ∧ a.isEmpty = a'.isEmpty ∧ Spec.wfMime P reg = true ∧
+      routerAdmits a P = true ∧ routerAdmits a' P = true ∧
+      walk reg P (sortedMimes (if a.isEmpty then starStar else a)) ≠ [] := by
+  decide
+
+/-- the side condition of C05_ows_writer is needed: the absent header and a header of one blank have
+    the same normal form and (with a default set) different writers — but the router rejects the blank one -/
+example :
+    let P := [mimeXML]; let reg := [mimeJSON, mimeXML]
+    dropOWS [] = dropOWS [' '] ∧ walk reg P (sortedMimes starStar) ≠ [] ∧
+      entityWriter [] P reg mimeJSON = [mimeXML] ∧ entityWriter [' '] P reg mimeJSON = [mimeJSON] ∧
+      routerAdmits [' '] P = false := by
   decide
 
 end Props
